@@ -397,6 +397,48 @@ func c15TrimAlignment(c *core.Ctx) {
 			break
 		}
 	}
+	// several pairs through one worker: each pair is cut by its own reference row (no state carried over)
+	mkPair := func(ref, qry string, idx int64) eval.Value {
+		p := absValue(pairT, "p", eval.K(0)).(*eval.StructVal)
+		p.F["ref"] = bytesVal(ref)
+		p.F["query"] = bytesVal(qry)
+		p.F["refname"] = eval.S("r")
+		p.F["queryname"] = eval.S("q")
+		p.F["idx"] = eval.K(idx)
+		return p
+	}
+	batches := [][]string{{"AA--AAA", "AAA--AA", "A--AAAA", "AAAA--A"}, {"AAAAA", "A-AAAA", "AAAA-A", "AAAAA"}, {"AAAA--A", "AA--AAA"}}
+	for _, rows := range batches {
+		for s := 1; s <= 5; s++ {
+			for e := s; e <= 5; e++ {
+				var feed []eval.Value
+				for i, r := range rows {
+					feed = append(feed, mkPair(r, "abcdefg"[:len(r)], int64(i)))
+				}
+				out := &eval.ChanVal{Name: "out"}
+				_, err := ev.CallFunc(fn, true, eval.K(int64(s)), eval.K(int64(e)), &eval.ChanVal{Name: "in", Feed: feed}, out, &eval.ChanVal{Name: "err"})
+				if err != nil || len(out.Sent) != len(rows) {
+					bad = append(bad, fmt.Sprintf("rows %v window %d..%d: undecided: %v", rows, s, e, err))
+					continue
+				}
+				n++
+				for i, r := range rows {
+					var cols []int
+					for k := 0; k < len(r); k++ {
+						if r[k] != '-' {
+							cols = append(cols, k)
+						}
+					}
+					res := out.Sent[i].(*eval.StructVal)
+					gr, _ := bytesStr(res.F["ref"])
+					wr := r[cols[s-1] : cols[e-1]+1]
+					if gr != wr {
+						bad = append(bad, fmt.Sprintf("pairs %v through one worker, window %d..%d: pair %d (%q) cut to %q, want %q", rows, s, e, i, r, gr, wr))
+					}
+				}
+			}
+		}
+	}
 	// no trimming: pair passes unchanged
 	pair := absValue(pairT, "p", eval.K(0)).(*eval.StructVal)
 	pair.F["ref"] = bytesVal("A-A")
